@@ -452,6 +452,20 @@ class Tr:
                     die("format.rs enum %s: unrecognised variant %r" % (m.group(1), item))
                 vals[mm.group(1)] = int(mm.group(2))
             self.enums[m.group(1)] = vals
+        # every struct with plain `pub name: type` fields, in declaration order (for the byte layout of the contexts:
+        # scroll's derive(Pread) reads the fields in declared order, packed)
+        self.layouts = {}
+        for m in re.finditer(r"pub struct (\w+)\s*\{", self.fmt_src):
+            end = match_brace(self.fmt_src, m.end() - 1)
+            fl = []
+            for item in split_top(self.fmt_src[m.end():end]):
+                item = strip_attrs(item)
+                mm = re.fullmatch(r"pub (\w+)\s*:\s*(.+)", item, re.S)
+                if not mm:
+                    fl = None
+                    break
+                fl.append((mm.group(1), norm(mm.group(2))))
+            self.layouts[m.group(1)] = fl
         for m in re.finditer(r"pub struct (CONTEXT_\w+)\s*\{", self.fmt_src):
             end = match_brace(self.fmt_src, m.end() - 1)
             fields = {}
@@ -470,6 +484,40 @@ class Tr:
                 else:
                     fields[name] = None      # nested struct / other: not addressable by the tables
             self.structs[m.group(1)] = fields
+
+    # ---------------------------------------------------------------- byte layout (derive(Pread): declared order, packed)
+    def usize_const(self, tok, where):
+        tok = tok.strip()
+        m = re.fullmatch(r"(\d+)(?:usize)?", tok)
+        if m:
+            return int(m.group(1))
+        ms = list(re.finditer(r"\bconst\s+%s\s*:\s*usize\s*=\s*(\d+)\s*;" % re.escape(tok), self.fmt_src))
+        if len(ms) != 1:
+            die("%s: array length %r is neither a literal nor a `const %s: usize = N;`" % (where, tok, tok))
+        return int(ms[0].group(1))
+
+    def size_of(self, ty, where):
+        m = re.fullmatch(r"[ui](8|16|32|64|128)", ty)
+        if m:
+            return int(m.group(1)) // 8
+        m = re.fullmatch(r"\[\s*(.+?)\s*;\s*([^;\]]+?)\s*\]", ty)
+        if m:
+            return self.size_of(m.group(1), where) * self.usize_const(m.group(2), where)
+        fl = self.layouts.get(ty)
+        if fl is None:
+            die("%s: cannot compute the size of field type %r" % (where, ty))
+        return sum(self.size_of(t, where + "." + f) for f, t in fl)
+
+    def offsets(self, cname):
+        """field -> byte offset inside the serialised context"""
+        fl = self.layouts.get(cname)
+        if fl is None:
+            die("format.rs: struct %s has fields the layout parser does not recognise" % cname)
+        off, out = 0, {}
+        for f, t in fl:
+            out[f] = off
+            off += self.size_of(t, "format.rs %s.%s" % (cname, f))
+        return out
 
     # ---------------------------------------------------------------- accessor expressions
     def named_const(self, tok, where):
@@ -900,7 +948,8 @@ class Tr:
                 t["valid_default"], t["valid_all"] = self.default_valid
             for key in ("md_get", "md_valid", "md_filter"):
                 t[key] = disp[v][key]
-            t["fields"] = [(f, wl[0], -1 if wl[1] is None else wl[1]) for f, wl in self.structs[cname].items() if wl is not None]
+            offs = self.offsets(cname)
+            t["fields"] = [(f, wl[0], -1 if wl[1] is None else wl[1], offs[f]) for f, wl in self.structs[cname].items() if wl is not None]
             t["gpr"] = tables[disp[v]["gpr_of"]]["registers"]
             t["gpr_of"] = disp[v]["gpr_of"]
             out.append(t)
@@ -1054,7 +1103,7 @@ def emit(tables):
         o.append("  ct_md_get := %s;" % coq_aexp(t["md_get"]))
         o.append("  ct_md_valid := %s;" % coq_bexp(t["md_valid"]))
         o.append("  ct_md_filter := %s;" % coq_bexp(t["md_filter"]))
-        o.append("  ct_fields := %s;" % coq_list("(%s, %d, %s)" % (coq_str(f), w, coq_z(n)) for f, w, n in t["fields"]))
+        o.append("  ct_fields := %s;" % coq_list("(%s, %d, %s, %d)" % (coq_str(f), w, coq_z(n), off) for f, w, n, off in t["fields"]))
         o.append("  ct_gpr := %s" % coq_list(coq_str(r) for r in t["gpr"]))
         o.append("|}.")
         o.append("")
